@@ -20,7 +20,19 @@ var IngestPort, QueryPort int
 
 // freePort picks a currently unused port outside the kernel's ephemeral range (32768–60999), so that outgoing
 // connections of other workers cannot grab it between the probe and the server's listen.
+var portCalls int
+
 func freePort() int {
+	// first choice: a pair of ports derived from the process id (distinct for all live workers unless their pids differ
+	// by a multiple of 10000); fall back to a random probe
+	portCalls++
+	if portCalls <= 2 {
+		p := 10000 + (os.Getpid()%10000)*2 + (portCalls - 1)
+		if l, err := net.Listen("tcp", fmt.Sprintf("127.0.0.1:%d", p)); err == nil {
+			l.Close()
+			return p
+		}
+	}
 	seed := uint32(os.Getpid())*2654435761 + uint32(time.Now().UnixNano())
 	for i := 0; i < 200; i++ {
 		seed = seed*1664525 + 1013904223
